@@ -42,6 +42,9 @@ FLOORS = {'quick': {'conclusive': 100, 'distinct_nontrivial': 50,
 CASE_TIMEOUT = {'quick': 180, 'thorough': 400}
 
 
+# appended to RULE in the evidence (vlib/runner.py)
+RULE_ADDENDUM = "Added in round 5: controls and rules that change a junction's minimum / required pressure during the run (aimed, after a scouting run, at the pressure the junction sees)."
+
 def n_cases(tier):
     return 200 if tier == 'quick' else 12000
 
